@@ -22,6 +22,8 @@ pub enum FileState {
     Text(String),
     /// exists but `read_to_string` fails (EIO / EACCES / invalid UTF-8)
     Unreadable,
+    /// a symbolic link to another path of the simulated disk: reading it reads the target
+    Link(String),
 }
 
 #[derive(Clone, Copy, Debug, PartialEq, Eq)]
@@ -55,6 +57,7 @@ pub struct Counters {
     pub disk_reads: u64,
     pub disk_read_missing: u64,
     pub disk_read_unreadable: u64,
+    pub disk_read_through_link: u64,
     pub disk_diverged_read: u64,
     pub input_fragments: u64,
     pub output_backpressure: u64,
@@ -529,8 +532,19 @@ impl Sim {
         }
         let too_long = path.as_os_str().len() >= crate::model::PATH_MAX; // ENAMETOOLONG
         let path = &crate::model::lexical(path);
-        let res = match st.disk.get(path).filter(|_| !too_long) {
-            Some(FileState::Text(t)) => Some(t.clone()),
+        // follow symbolic links (a few hops at most, like ELOOP)
+        let mut entry = st.disk.get(path).filter(|_| !too_long).cloned();
+        let mut hops = 0;
+        while let Some(FileState::Link(target)) = &entry {
+            hops += 1;
+            entry = if hops > 8 { None } else { st.disk.get(&crate::model::lexical(Path::new(target))).cloned() };
+        }
+        if hops > 0 {
+            st.counters.disk_read_through_link += 1;
+        }
+        let res = match entry {
+            Some(FileState::Link(_)) => None,
+            Some(FileState::Text(t)) => Some(t),
             Some(FileState::Unreadable) => {
                 st.counters.disk_read_unreadable += 1;
                 None
